@@ -18,7 +18,7 @@ BACKENDS = ["default", "torch", "jax", "fortran"]
 SOLVERS = ["euler", "heun", "scipy", "diffrax", "other"]
 DELAYS = ["none", "discrete", "spread", "past"]
 ENTRIES = ["run", "func", "jac"]
-GUARDS = ["guard_path_not_attr", "guard_node_value_not_circuit"]
+GUARDS = ["guard_path_not_attr", "guard_node_value_not_circuit", "guard_backend_documented"]
 MIXED = ["mix_ds", "mix_sd", "pop_ds", "pop_sd"]
 POP_MIXED = ["pop_ds", "pop_sd"]
 
@@ -284,6 +284,55 @@ def _impl_config0(case):
             for cls, name, attr in saved:
                 setattr(cls, name, attr)
 
+def _impl_option(case):
+    """one option value given as the caller would type it (near-miss spellings included); everything else valid.
+    Observed: refusal class, or what actually ran (integration routine / backend class / dtype / scipy method)."""
+    import warnings
+    import numpy as np
+    import scipy.integrate as si
+    m = matrix_model("none")
+    kind, v = case["kind"], case["v"]
+    be = case.get("be", "default")
+    args = dict(simulation_time=1.0, step_size=0.125, solver="euler", outputs=dict(m["outputs"]), clear=False, verbose=False,
+                backend=be, vectorize=be != "fortran", float_precision="float64")
+    if kind == "solver":
+        args["solver"] = v
+    elif kind == "backend":
+        args["backend"] = v
+    elif kind == "precision":
+        args["float_precision"] = v
+    elif kind == "method":
+        args.update(solver="scipy", method=v)
+    if be == "fortran":
+        _FCOUNT[0] += 1
+        args["file_name"] = f"fo{os.getpid()}_{_FCOUNT[0]}"
+    rec, seen_method = [], []
+    rec_be = args["backend"] if args["backend"] in ("torch", "jax", "fortran") else "default"
+    saved = _record_solve(rec_be, rec)
+    orig_ivp = si.solve_ivp
+    def spy_ivp(*a, **k):
+        seen_method.append(k.get("method", "RK45"))
+        return orig_ivp(*a, **k)
+    si.solve_ivp = spy_ivp
+    try:
+        with warnings.catch_warnings(record=True):
+            warnings.simplefilter("always")
+            try:
+                c = _build(m)
+                r = c.run(**args)
+                vals = np.asarray(r.values)
+                eff = {"solver": {"MEuler": "euler", "MHeun": "heun", "MScipy": "scipy", "MDiffrax": "diffrax"}.get(rec[0] if rec else None),
+                       "backend": type(c._ir.graph.backend).__name__,
+                       "precision": str(vals.dtype),
+                       "method": str(seen_method[0]) if seen_method else None}[kind]
+                return dict(r="ok", numbers=_has_numbers(vals), effect=eff)
+            except Exception as e:
+                return _classify(e)
+    finally:
+        si.solve_ivp = orig_ivp
+        for cls, name, attr in saved:
+            setattr(cls, name, attr)
+
 def _impl_mutant(case):
     import warnings
     import numpy as np
@@ -386,7 +435,7 @@ def impl(case):
     _CLEAN[0] = False
     try:
         return {"config": _impl_config, "mutant": _impl_mutant, "vname": _impl_vname, "verify_path": _impl_verify_path,
-                "node_apply": _impl_node_apply, "opgraph": _impl_opgraph}[case["t"]](case)
+                "node_apply": _impl_node_apply, "opgraph": _impl_opgraph, "option": _impl_option}[case["t"]](case)
     finally:
         reset_pyrates()
         _CLEAN[0] = True
@@ -406,6 +455,53 @@ def config_cases(rng, tier):
     if tier == "quick":
         f_late = rng.sample(f_late, 3)
     return inproc, f_early + f_late
+
+def near_misses(name):
+    """spellings a caller could type for `name`: case variants, surrounding whitespace, a character missing / too many"""
+    out = [name, name.capitalize(), name.upper(), name.lower(), name.swapcase(), " " + name, name + " ", " " + name + " ", name[:-1],
+           name[1:], name + "2", name + "x", name + name[-1]]
+    seen, res = set(), []
+    for x in out:
+        if x not in seen:
+            seen.add(x); res.append(x)
+    return res
+
+def option_cases(rng, tier):
+    """every supported value of every validated string option, with its near-miss spellings, '' and None"""
+    cases = []
+    solver_strings = []
+    for n in ("euler", "heun", "scipy", "diffrax"):
+        solver_strings += near_misses(n)
+    solver_strings += ["", None, "rk4", "RK45", "Euler ", "odeint"]
+    for be in ("default", "torch", "jax"):
+        for v in solver_strings:
+            cases.append(dict(t="option", kind="solver", be=be, v=v))
+    fort = [dict(t="option", kind="solver", be="fortran", v=v) for v in solver_strings]
+    cases += fort if tier == "thorough" else rng.sample(fort, 2)
+    backend_strings = []
+    for n in ("default", "numpy", "torch", "jax", "fortran", "julia"):
+        backend_strings += near_misses(n)
+    backend_strings += ["", None, "tensorflow", "jaxx", "cuda", "matlab"]
+    for v in backend_strings:
+        if v == "fortran":
+            continue                     # the exact name is the Fortran part of the matrix (vectorize=False, own module names)
+        cases.append(dict(t="option", kind="backend", be=v if v in ("torch", "jax") else "default", v=v))
+    prec = []
+    for n in ("float64", "float32", "float16", "double", "float"):
+        prec += near_misses(n)
+    for v in prec + ["", None]:
+        cases.append(dict(t="option", kind="precision", be="default", v=v))
+    meth = []
+    for n in ("RK45", "RK23", "DOP853", "Radau", "BDF", "LSODA"):
+        meth += near_misses(n)
+    for v in meth + ["", None, "euler"]:
+        cases.append(dict(t="option", kind="method", be="default", v=v))
+    seen, res = set(), []
+    for c in cases:
+        k = canon(c)
+        if k not in seen:
+            seen.add(k); res.append(c)
+    return res
 
 def misspell(path, i, how="x"):
     parts = path.split("/")
@@ -564,6 +660,11 @@ Definition okI (c : probe * result) := result_eqb (impl (fst c)) (snd c).
 Definition okS (c : probe * result) := meets_spec (fst c) (snd c).
 Definition method_eqb (a b : method) : bool :=
   match a, b with MEuler, MEuler | MHeun, MHeun | MScipy, MScipy | MDiffrax, MDiffrax => true | _, _ => false end.
+Definition okE (c : probe * option string) :=
+  match fst c, snd c with
+  | POption k v, Some e => match option_effect k v with Some e' => String.eqb e e' | None => false end
+  | _, _ => false
+  end.
 Definition okD (c : config * method) :=
   method_eqb (solve_dispatch (be (fst c)) (so (fst c))) (snd c) &&
   match accepts (fst c), named_method (so (fst c)) with
@@ -592,6 +693,11 @@ def probe_term(case, res):
             ctor = "PPopMixed" if case["dl"] in POP_MIXED else "PMixed"
             return f"{ctor} {be} {so} {cbool(case['vec'])} {cbool(case['dl'].endswith('_ds'))} {en}"
         return f"PConfig (mkc {be} {so} {cbool(case['vec'])} {dl} {cbool(case['sparse'])} {cbool(case['inplace'])} {en})"
+    if t == "option":
+        bmap = {"default": "BDefault", "torch": "BTorch", "jax": "BJax", "fortran": "BFortran"}
+        k = {"solver": f"(OSolver {bmap.get(case.get('be'), 'BDefault')})", "backend": "OBackend", "precision": "OPrecision",
+             "method": "OMethod"}[case["kind"]]
+        return f"POption {k} {copt(case['v'], cstr)}"
     if t == "vname":
         return f"PVname {cstr(case['v'])}"
     if t == "verify_path":
@@ -653,6 +759,16 @@ def model_compare(ctx, cases, outs, tag):
         assert len(ls) == len(keys), out[:400]
         for k, l in zip(keys, ls):
             acc[k] += [s + i for i in l]
+    # what actually ran for an accepted option value (integration routine / backend class / dtype / scipy method)
+    eff = [(i, c, o["effect"]) for i, (c, o) in enumerate(zip(cases, outs)) if c["t"] == "option" and o.get("r") == "ok"]
+    acc["badE"] = []; acc["effects"] = len(eff)
+    if eff:
+        terms = [f"({probe_term(c, None)}, {copt(e, cstr)})" for _, c, e in eff]
+        body = ("Definition ecases : list (probe * option string) := " + clist(terms) + ".\n"
+                "Eval vm_compute in (mismatches okE ecases).\n")
+        ls = parse_nat_lists(coq_eval(ctx, f"c20_{tag}_eff", HEADER, body))
+        assert len(ls) == 1
+        acc["badE"] = [eff[j][0] for j in ls[0]]
     # solver dispatch observed on the real code (recorders around the backend's _solve_* routines): whenever `_solve`
     # got past the validation, the routine entered first must be the one Guards.solve_dispatch names, and for an
     # accepted configuration that is the routine named by the solver
@@ -708,6 +824,9 @@ def run_cases(ctx, cases):
         if c["t"] == "config":
             g = c["be"]
             w = {"default": 0.1, "torch": 0.16, "jax": 0.25, "fortran": 0.3 if c["vec"] else 7.0}[g]
+        elif c["t"] == "option":
+            g = c["be"]
+            w = {"default": 0.1, "torch": 0.16, "jax": 0.25, "fortran": 7.0}[g]
         else:
             g, w = "front", {"mutant": 0.2, "verify_path": 0.25}.get(c["t"], 0.02)
         idx.setdefault(g, []).append(i)
@@ -752,11 +871,11 @@ def check(ctx):
             muts += hier_mutants(m, ctx.rng, ctx.tier)
         cases = (load_corpus("C20") + inproc + fortran + muts + vname_cases(ctx.rng, 150 if quick else 1500)
                  + verify_path_cases(ctx.rng, 12 if quick else 80) + node_apply_cases(ctx.rng, 4 if quick else 20)
-                 + opgraph_cases(ctx.rng, 60 if quick else 600))
+                 + opgraph_cases(ctx.rng, 60 if quick else 600) + option_cases(ctx.rng, ctx.tier))
     only = os.environ.get("VERIF_C20_GROUPS")     # development aid: restrict the run to some groups (default,torch,jax,fortran,front)
     if only and not ctx.replay:
         keep = set(only.split(","))
-        cases = [c for c in cases if (c["be"] if c["t"] == "config" else "front") in keep]
+        cases = [c for c in cases if (c["be"] if c["t"] in ("config", "option") else "front") in keep]
         ctx.note(f"RESTRICTED RUN (VERIF_C20_GROUPS={only}): not a full check")
     t_run = time.time()
     outs = run_cases(ctx, cases)
@@ -769,10 +888,11 @@ def check(ctx):
     ctx.note(f"real-code runs {t_run:.0f}s, evaluation of the model in Coq {t_coq:.0f}s")
     back = lambda l: [good[i] for i in l]
     badI, badS, malformed, notwf = back(cmp_["badI"]), back(cmp_["badS"]), back(cmp_["malformed"]), back(cmp_["notwf"])
-    badD = back(cmp_["badD"])
-    badI = sorted(set(badI) | set(badD))      # a wrong dispatch is a disagreement with the mechanism model
+    badD = back(cmp_["badD"]); badE = back(cmp_["badE"])
+    badI = sorted(set(badI) | set(badD) | set(badE))      # a wrong dispatch / effect is a disagreement with the mechanism model
+    ctx.note(f"option values given as strings: {cmp_['effects']} accepted requests, what ran differs from Guards.option_effect on {len(badE)}")
     ctx.note(f"solver dispatch observed on {cmp_['dispatched']} runs that reached an integration routine; "
-             f"disagreements with Guards.solve_dispatch / named_method: {len(badD)}; model switches fixed_F3={fixed_F3()} fixed_F4={fixed_F3('fixed_F4')}")
+             f"disagreements with Guards.solve_dispatch / named_method: {len(badD)}; model switches fixed_F3={fixed_F3()} fixed_F4={fixed_F3('fixed_F4')} fixed_F5={fixed_F3('fixed_F5')}")
     assert not notwf, f"generator produced a network with duplicate keys: {[summarize(cases[i]) for i in notwf[:3]]}"
     # 'ok' must mean that numbers came back; a quiet return without numbers would be a harness blind spot
     hollow = [i for i in good if outs[i]["r"] in ("ok", "warn") and outs[i].get("numbers") is False]
@@ -820,7 +940,7 @@ def check(ctx):
                                           fortran_reaching_f2py=sum(1 for c in cases if c["t"] == "config" and c["be"] == "fortran" and not c["vec"]),
                                           note="`sparse` is a parameter of get_jacobian_func only: rows with sparse=true are run for that entry point"),
                               impl_vs_model_mismatches=len(badI), impl_vs_spec_mismatches=len(badS),
-                              solver_dispatch_observed=cmp_["dispatched"], solver_dispatch_mismatches=len(badD), model_switch_fixed_F3=fixed_F3(), model_switch_fixed_F4=fixed_F3('fixed_F4'),
+                              solver_dispatch_observed=cmp_["dispatched"], solver_dispatch_mismatches=len(badD), model_switch_fixed_F3=fixed_F3(), model_switch_fixed_F4=fixed_F3('fixed_F4'), model_switch_fixed_F5=fixed_F3('fixed_F5'), option_effects_observed=cmp_['effects'], option_effect_mismatches=len(badE),
                               mixed_delay_rows=sum(1 for c in cases if c["t"] == "config" and c["dl"] in MIXED),
                               outside_guards={g: len(cmp_[g]) for g in GUARDS}),
                    trusted_base=["exception classes are compared through a three-valued enum (PyRatesException / NotImplementedError / any other)",
